@@ -4,6 +4,7 @@ import RModel.Model.Wrappers
 import RModel.Model.WrappersKnown
 import RModel.Gen.CliGrammar
 import RModel.Gen.Wrappers
+import RModel.Gen.WrappersVerdict
 /-
   C20 — Every command line the wrappers build is accepted by the CLI.   (property theorems only)
 
@@ -13,63 +14,101 @@ import RModel.Gen.Wrappers
                        (subcommand, positionals in order, every pushed flag set, every pushed option
                         holding exactly the pushed values)
   `Wrap.enumerate b`   every subset of the optional fields x representative values, plus hostile values
-  `Wrap.knownBad`      the finite guard: (wrapper, builder, field[, value]) combinations rejected today
+  `Wrap.knownBad`      every defect ever found: (wrapper, builder, field[, value]) combinations
+  `live`               the slugs of the `knownBad` entries that reproduce on the CURRENT sources: generated
+                       (`Gen/WrappersVerdict.lean`, translate/wrappers_verdict.py) and re-derived here by
+                       kernel evaluation (`verdict_exact`).  The guard consists of those entries only, so
+                       this file compiles unchanged before and after the wrappers are repaired:
+                         before:  `live` has 21 entries, `C20_partial` is the guarded property, each
+                                  `C20_witness_<slug>` exhibits its finding, `C20_full_false` refutes `C20_full`;
+                         after:   `live = []`, the guard is empty, `C20_full_on_core` gives the property at
+                                  full strength on the evaluated space, the witnesses hold vacuously
+                                  (their entry is not in force).
 
-  Full statement (false today, kept visible): `C20_full`.
-  Guarded statement over the whole enumerated space: `C20_guarded` — NOT proved here: evaluating
-  ~4·10^4 parses in the kernel takes hours.  It is *executed* on every run instead (compiled model, all
-  cases, compared case by case with the real clap parser; see checks/c20.py) and listed as an open
-  statement in the evidence.  Missing lemma for a proof: independence of option segments,
+  Full statement: `C20_full`.  Guarded statement over the whole enumerated space: `C20_guarded`.
+  NOT proved here (either world): the step from the kernel-evaluated part `space b = Wrap.core live b` to
+  the whole `Wrap.enumerate b` (~4·10^4 parses; hours in the kernel).  That part is *executed* on every run
+  (compiled model, all cases, compared case by case with the real clap parser; checks/c20.py) and listed
+  as an open statement in the evidence.  Missing lemma: independence of option segments,
       run args poss [] st (seg₁ ++ seg₂ ++ rest) = run args poss [] (feed (feed st seg₁) seg₂) rest
-  with `feed` commuting for distinct non-conflicting arguments, which would reduce the 2^n subsets to n
-  single-field facts.
-  Proved here by kernel evaluation (`decide +kernel`, no `native_decide`): the guarded statement on
-  `Wrap.core b` — for the 14 small builders the whole enumerated space, for the 6 large ones: nothing
-  set, every field alone with each representative, every hostile value, and per value profile the two
-  maximal combinations of fields outside `knownBad` — and its converse (the guard excludes nothing that
-  works), plus one witness per `knownBad` entry.
+  with `feed` commuting for distinct non-conflicting arguments (reduces the 2^n subsets to n facts).
+  Proved here by kernel evaluation (`decide +kernel`, no `native_decide`): on `space b` — for the small
+  builders the whole enumerated space; for the large ones: nothing set, every field alone with each
+  representative, every hostile value, the field combinations named in `knownBad`, and per value
+  profile the two maximal combinations outside the guard — the guard is exact: outside it the command
+  line is accepted with the intended meaning, inside it it is not.
 -/
 namespace C20
 open Wrap Cli
 
 abbrev G : Grammar := Gen.CliGrammar.grammar
 
-/-- The property at full strength.  False today (`C20_full_false`). -/
+/-- slugs of the findings in force (generated verdict) -/
+abbrev live : List Str := Gen.WrappersVerdict.liveSlugs
+
+def inForce (slug : Str) : Bool := anyIs live slug
+
+/-- the guard: the valuation falls under a finding that is in force -/
+def guard (b : Builder) (v : Valuation) : Bool := usesBad live b v
+
+/-- the kernel-evaluated part of the enumerated space -/
+def space (b : Builder) : List Valuation := core live b
+
+/-- The property at full strength. -/
 def C20_full : Prop :=
   ∀ b ∈ Gen.Wrappers.builders, ∀ v ∈ enumerate b, okFor G b v = true
 
-/-- The property for every enumerated valuation that stays outside `knownBad`.  Executed exhaustively
-    by the check on every run, not proved (see the header). -/
+/-- The property for every enumerated valuation outside the guard.  Executed exhaustively by the check
+    on every run, not proved (see the header). -/
 def C20_guarded : Prop :=
-  ∀ b ∈ Gen.Wrappers.builders, ∀ v ∈ enumerate b, usesBad b v = false → okFor G b v = true
+  ∀ b ∈ Gen.Wrappers.builders, ∀ v ∈ enumerate b, guard b v = false → okFor G b v = true
 
 /-- one row of the decision table: outside the guard the command line works, inside it does not -/
-def rowOk (b : Builder) (v : Valuation) : Bool := usesBad b v != okFor G b v
+def rowOk (b : Builder) (v : Valuation) : Bool := guard b v != okFor G b v
 
 set_option maxRecDepth 1000000 in
-theorem table : Gen.Wrappers.builders.all (fun b => (core b).all (rowOk b)) = true := by decide +kernel
+theorem table : Gen.Wrappers.builders.all (fun b => (space b).all (rowOk b)) = true := by decide +kernel
 
-/-- C20 on the kernel-evaluated part of the space: whatever stays outside `knownBad` is accepted by the
+set_option maxRecDepth 1000000 in
+/-- the generated verdict is what the model computes: exactly the `knownBad` entries that apply to some
+    probed valuation whose command line is rejected or misread -/
+theorem verdict_exact : liveSlugsOf G Gen.Wrappers.builders = live := by decide +kernel
+
+/-- C20 on the kernel-evaluated part of the space: whatever stays outside the guard is accepted by the
     CLI's parser with the intended meaning. -/
 theorem C20_partial :
-    ∀ b ∈ Gen.Wrappers.builders, ∀ v ∈ core b, usesBad b v = false → okFor G b v = true := by
+    ∀ b ∈ Gen.Wrappers.builders, ∀ v ∈ space b, guard b v = false → okFor G b v = true := by
   intro b hb v hv hbad
   have h := List.all_eq_true.mp (List.all_eq_true.mp table b hb) v hv
   simp [rowOk, hbad] at h
   exact h
 
 /-- The guard is exact there: every excluded valuation really fails (rejected, or accepted with another
-    meaning), so `knownBad` hides nothing that works. -/
+    meaning), so it hides nothing that works. -/
 theorem C20_knownBad_exact :
-    ∀ b ∈ Gen.Wrappers.builders, ∀ v ∈ core b, usesBad b v = true → okFor G b v = false := by
+    ∀ b ∈ Gen.Wrappers.builders, ∀ v ∈ space b, guard b v = true → okFor G b v = false := by
   intro b hb v hv hbad
   have h := List.all_eq_true.mp (List.all_eq_true.mp table b hb) v hv
   simp [rowOk, hbad] at h
   exact h
 
+/-- with no finding in force the guard is empty -/
+theorem guard_empty (h : live = []) (b : Builder) (v : Valuation) : guard b v = false := by
+  unfold guard usesBad liveBad
+  rw [h]
+  simp [anyIs]
+
+/-- Once every finding is repaired (`live = []`, a generated fact re-derived by `verdict_exact`) the
+    property holds at full strength on the evaluated space: every builder, every option valuation there,
+    is accepted by the parser with the intended meaning. -/
+theorem C20_full_on_core (h : live = []) :
+    ∀ b ∈ Gen.Wrappers.builders, ∀ v ∈ space b, okFor G b v = true :=
+  fun b hb v hv => C20_partial b hb v hv (guard_empty h b v)
+
 -- witnesses: one per `knownBad` entry ----------------------------------------------------------
--- Each states (1) some valuation of the evaluated space makes the builder produce exactly this argv and
--- (2) what clap's parser (the model, compared with the real one on every run) answers.
+-- Each states, for an entry that is in force: (1) some valuation of the evaluated space makes the builder
+-- produce exactly this argv and (2) what clap's parser (the model, compared with the real one on every
+-- run) answers.  For an entry that is no longer in force the statement is vacuous.
 
 /-- values an accepted command line gives to argument `id` of its subcommand -/
 def parsedVals (argv : List Str) (id : Str) : Option Val :=
@@ -78,137 +117,139 @@ def parsedVals (argv : List Str) (id : Str) : Option Val :=
   | .error _ => none
 
 /-- `mcp-search-styles`: `renamify search old_name --styles snake` -/
-theorem C20_witness_mcp_search_styles :
-    (∃ v ∈ core Gen.Wrappers.mcp_buildSearchArgs, build Gen.Wrappers.mcp_buildSearchArgs v = [t!"search", t!"old_name", t!"--styles", t!"snake"]) ∧
+theorem C20_witness_mcp_search_styles : inForce t!"mcp-search-styles" = true →
+    (∃ v ∈ space Gen.Wrappers.mcp_buildSearchArgs, build Gen.Wrappers.mcp_buildSearchArgs v = [t!"search", t!"old_name", t!"--styles", t!"snake"]) ∧
     accepts G [t!"search", t!"old_name", t!"--styles", t!"snake"] = .error .unknownArgument := by decide +kernel
 
 /-- `mcp-search-dry-run`: `renamify search old_name --dry-run` -/
-theorem C20_witness_mcp_search_dry_run :
-    (∃ v ∈ core Gen.Wrappers.mcp_buildSearchArgs, build Gen.Wrappers.mcp_buildSearchArgs v = [t!"search", t!"old_name", t!"--dry-run"]) ∧
+theorem C20_witness_mcp_search_dry_run : inForce t!"mcp-search-dry-run" = true →
+    (∃ v ∈ space Gen.Wrappers.mcp_buildSearchArgs, build Gen.Wrappers.mcp_buildSearchArgs v = [t!"search", t!"old_name", t!"--dry-run"]) ∧
     accepts G [t!"search", t!"old_name", t!"--dry-run"] = .error .unknownArgument := by decide +kernel
 
 /-- `mcp-search-no-rename-files`: `renamify search old_name --no-rename-files` -/
-theorem C20_witness_mcp_search_no_rename_files :
-    (∃ v ∈ core Gen.Wrappers.mcp_buildSearchArgs, build Gen.Wrappers.mcp_buildSearchArgs v = [t!"search", t!"old_name", t!"--no-rename-files"]) ∧
+theorem C20_witness_mcp_search_no_rename_files : inForce t!"mcp-search-no-rename-files" = true →
+    (∃ v ∈ space Gen.Wrappers.mcp_buildSearchArgs, build Gen.Wrappers.mcp_buildSearchArgs v = [t!"search", t!"old_name", t!"--no-rename-files"]) ∧
     accepts G [t!"search", t!"old_name", t!"--no-rename-files"] = .error .unknownArgument := by decide +kernel
 
 /-- `mcp-search-no-rename-dirs`: `renamify search old_name --no-rename-dirs` -/
-theorem C20_witness_mcp_search_no_rename_dirs :
-    (∃ v ∈ core Gen.Wrappers.mcp_buildSearchArgs, build Gen.Wrappers.mcp_buildSearchArgs v = [t!"search", t!"old_name", t!"--no-rename-dirs"]) ∧
+theorem C20_witness_mcp_search_no_rename_dirs : inForce t!"mcp-search-no-rename-dirs" = true →
+    (∃ v ∈ space Gen.Wrappers.mcp_buildSearchArgs, build Gen.Wrappers.mcp_buildSearchArgs v = [t!"search", t!"old_name", t!"--no-rename-dirs"]) ∧
     accepts G [t!"search", t!"old_name", t!"--no-rename-dirs"] = .error .unknownArgument := by decide +kernel
 
 /-- `mcp-search-atomic-search`: `renamify search old_name --atomic-search` -/
-theorem C20_witness_mcp_search_atomic_search :
-    (∃ v ∈ core Gen.Wrappers.mcp_buildSearchArgs, build Gen.Wrappers.mcp_buildSearchArgs v = [t!"search", t!"old_name", t!"--atomic-search"]) ∧
+theorem C20_witness_mcp_search_atomic_search : inForce t!"mcp-search-atomic-search" = true →
+    (∃ v ∈ space Gen.Wrappers.mcp_buildSearchArgs, build Gen.Wrappers.mcp_buildSearchArgs v = [t!"search", t!"old_name", t!"--atomic-search"]) ∧
     accepts G [t!"search", t!"old_name", t!"--atomic-search"] = .error .unknownArgument := by decide +kernel
 
 /-- `mcp-leading-hyphen`: `renamify search -x` -/
-theorem C20_witness_mcp_leading_hyphen :
-    (∃ v ∈ core Gen.Wrappers.mcp_buildSearchArgs, build Gen.Wrappers.mcp_buildSearchArgs v = [t!"search", t!"-x"]) ∧
+theorem C20_witness_mcp_leading_hyphen : inForce t!"mcp-leading-hyphen" = true →
+    (∃ v ∈ space Gen.Wrappers.mcp_buildSearchArgs, build Gen.Wrappers.mcp_buildSearchArgs v = [t!"search", t!"-x"]) ∧
     accepts G [t!"search", t!"-x"] = .error .unknownArgument := by decide +kernel
 
 /-- `mcp-search-includes-comma`: `renamify search old_name --include a,b` is accepted, but the single pattern arrives as two -/
-theorem C20_witness_mcp_search_includes_comma :
-    (∃ v ∈ core Gen.Wrappers.mcp_buildSearchArgs, build Gen.Wrappers.mcp_buildSearchArgs v = [t!"search", t!"old_name", t!"--include", t!"a,b"] ∧ okFor G Gen.Wrappers.mcp_buildSearchArgs v = false) ∧
+theorem C20_witness_mcp_search_includes_comma : inForce t!"mcp-search-includes-comma" = true →
+    (∃ v ∈ space Gen.Wrappers.mcp_buildSearchArgs, build Gen.Wrappers.mcp_buildSearchArgs v = [t!"search", t!"old_name", t!"--include", t!"a,b"] ∧ okFor G Gen.Wrappers.mcp_buildSearchArgs v = false) ∧
     parsedVals [t!"search", t!"old_name", t!"--include", t!"a,b"] t!"include" = some (.vals [t!"a", t!"b"]) := by decide +kernel
 
 /-- `mcp-search-excludes-comma`: `renamify search old_name --exclude a,b` is accepted, but the single pattern arrives as two -/
-theorem C20_witness_mcp_search_excludes_comma :
-    (∃ v ∈ core Gen.Wrappers.mcp_buildSearchArgs, build Gen.Wrappers.mcp_buildSearchArgs v = [t!"search", t!"old_name", t!"--exclude", t!"a,b"] ∧ okFor G Gen.Wrappers.mcp_buildSearchArgs v = false) ∧
+theorem C20_witness_mcp_search_excludes_comma : inForce t!"mcp-search-excludes-comma" = true →
+    (∃ v ∈ space Gen.Wrappers.mcp_buildSearchArgs, build Gen.Wrappers.mcp_buildSearchArgs v = [t!"search", t!"old_name", t!"--exclude", t!"a,b"] ∧ okFor G Gen.Wrappers.mcp_buildSearchArgs v = false) ∧
     parsedVals [t!"search", t!"old_name", t!"--exclude", t!"a,b"] t!"exclude" = some (.vals [t!"a", t!"b"]) := by decide +kernel
 
 /-- `mcp-plan-styles`: `renamify plan old_name new_name --styles snake` -/
-theorem C20_witness_mcp_plan_styles :
-    (∃ v ∈ core Gen.Wrappers.mcp_buildPlanArgs, build Gen.Wrappers.mcp_buildPlanArgs v = [t!"plan", t!"old_name", t!"new_name", t!"--styles", t!"snake"]) ∧
+theorem C20_witness_mcp_plan_styles : inForce t!"mcp-plan-styles" = true →
+    (∃ v ∈ space Gen.Wrappers.mcp_buildPlanArgs, build Gen.Wrappers.mcp_buildPlanArgs v = [t!"plan", t!"old_name", t!"new_name", t!"--styles", t!"snake"]) ∧
     accepts G [t!"plan", t!"old_name", t!"new_name", t!"--styles", t!"snake"] = .error .unknownArgument := by decide +kernel
 
 /-- `mcp-plan-includes-comma`: `renamify plan old_name new_name --include a,b` is accepted, but the single pattern arrives as two -/
-theorem C20_witness_mcp_plan_includes_comma :
-    (∃ v ∈ core Gen.Wrappers.mcp_buildPlanArgs, build Gen.Wrappers.mcp_buildPlanArgs v = [t!"plan", t!"old_name", t!"new_name", t!"--include", t!"a,b"] ∧ okFor G Gen.Wrappers.mcp_buildPlanArgs v = false) ∧
+theorem C20_witness_mcp_plan_includes_comma : inForce t!"mcp-plan-includes-comma" = true →
+    (∃ v ∈ space Gen.Wrappers.mcp_buildPlanArgs, build Gen.Wrappers.mcp_buildPlanArgs v = [t!"plan", t!"old_name", t!"new_name", t!"--include", t!"a,b"] ∧ okFor G Gen.Wrappers.mcp_buildPlanArgs v = false) ∧
     parsedVals [t!"plan", t!"old_name", t!"new_name", t!"--include", t!"a,b"] t!"include" = some (.vals [t!"a", t!"b"]) := by decide +kernel
 
 /-- `mcp-plan-excludes-comma`: `renamify plan old_name new_name --exclude a,b` is accepted, but the single pattern arrives as two -/
-theorem C20_witness_mcp_plan_excludes_comma :
-    (∃ v ∈ core Gen.Wrappers.mcp_buildPlanArgs, build Gen.Wrappers.mcp_buildPlanArgs v = [t!"plan", t!"old_name", t!"new_name", t!"--exclude", t!"a,b"] ∧ okFor G Gen.Wrappers.mcp_buildPlanArgs v = false) ∧
+theorem C20_witness_mcp_plan_excludes_comma : inForce t!"mcp-plan-excludes-comma" = true →
+    (∃ v ∈ space Gen.Wrappers.mcp_buildPlanArgs, build Gen.Wrappers.mcp_buildPlanArgs v = [t!"plan", t!"old_name", t!"new_name", t!"--exclude", t!"a,b"] ∧ okFor G Gen.Wrappers.mcp_buildPlanArgs v = false) ∧
     parsedVals [t!"plan", t!"old_name", t!"new_name", t!"--exclude", t!"a,b"] t!"exclude" = some (.vals [t!"a", t!"b"]) := by decide +kernel
 
 /-- `mcp-apply-plan`: `renamify apply --plan plans/p.json` -/
-theorem C20_witness_mcp_apply_plan :
-    (∃ v ∈ core Gen.Wrappers.mcp_buildApplyArgs, build Gen.Wrappers.mcp_buildApplyArgs v = [t!"apply", t!"--plan", t!"plans/p.json"]) ∧
+theorem C20_witness_mcp_apply_plan : inForce t!"mcp-apply-plan" = true →
+    (∃ v ∈ space Gen.Wrappers.mcp_buildApplyArgs, build Gen.Wrappers.mcp_buildApplyArgs v = [t!"apply", t!"--plan", t!"plans/p.json"]) ∧
     accepts G [t!"apply", t!"--plan", t!"plans/p.json"] = .error .unknownArgument := by decide +kernel
 
 /-- `mcp-preview-preview-only`: `renamify plan --preview-only` -/
-theorem C20_witness_mcp_preview_preview_only :
-    (∃ v ∈ core Gen.Wrappers.mcp_buildPreviewArgs, build Gen.Wrappers.mcp_buildPreviewArgs v = [t!"plan", t!"--preview-only"]) ∧
+theorem C20_witness_mcp_preview_preview_only : inForce t!"mcp-preview-preview-only" = true →
+    (∃ v ∈ space Gen.Wrappers.mcp_buildPreviewArgs, build Gen.Wrappers.mcp_buildPreviewArgs v = [t!"plan", t!"--preview-only"]) ∧
     accepts G [t!"plan", t!"--preview-only"] = .error .unknownArgument := by decide +kernel
 
 /-- `mcp-rename-preview-json`: `renamify rename old_name new_name --preview json --yes` -/
-theorem C20_witness_mcp_rename_preview_json :
-    (∃ v ∈ core Gen.Wrappers.mcp_rename, build Gen.Wrappers.mcp_rename v = [t!"rename", t!"old_name", t!"new_name", t!"--preview", t!"json", t!"--yes"]) ∧
+theorem C20_witness_mcp_rename_preview_json : inForce t!"mcp-rename-preview-json" = true →
+    (∃ v ∈ space Gen.Wrappers.mcp_rename, build Gen.Wrappers.mcp_rename v = [t!"rename", t!"old_name", t!"new_name", t!"--preview", t!"json", t!"--yes"]) ∧
     accepts G [t!"rename", t!"old_name", t!"new_name", t!"--preview", t!"json", t!"--yes"] = .error .invalidValue := by decide +kernel
 
 /-- `mcp-rename-only-with-exclude-styles`: `renamify rename old_name new_name --exclude-styles snake --only-styles snake --yes` -/
-theorem C20_witness_mcp_rename_only_with_exclude_styles :
-    (∃ v ∈ core Gen.Wrappers.mcp_rename, build Gen.Wrappers.mcp_rename v = [t!"rename", t!"old_name", t!"new_name", t!"--exclude-styles", t!"snake", t!"--only-styles", t!"snake", t!"--yes"]) ∧
+theorem C20_witness_mcp_rename_only_with_exclude_styles : inForce t!"mcp-rename-only-with-exclude-styles" = true →
+    (∃ v ∈ space Gen.Wrappers.mcp_rename, build Gen.Wrappers.mcp_rename v = [t!"rename", t!"old_name", t!"new_name", t!"--exclude-styles", t!"snake", t!"--only-styles", t!"snake", t!"--yes"]) ∧
     accepts G [t!"rename", t!"old_name", t!"new_name", t!"--exclude-styles", t!"snake", t!"--only-styles", t!"snake", t!"--yes"] = .error .argumentConflict := by decide +kernel
 
 /-- `mcp-rename-only-with-include-styles`: `renamify rename old_name new_name --include-styles snake --only-styles snake --yes` -/
-theorem C20_witness_mcp_rename_only_with_include_styles :
-    (∃ v ∈ core Gen.Wrappers.mcp_rename, build Gen.Wrappers.mcp_rename v = [t!"rename", t!"old_name", t!"new_name", t!"--include-styles", t!"snake", t!"--only-styles", t!"snake", t!"--yes"]) ∧
+theorem C20_witness_mcp_rename_only_with_include_styles : inForce t!"mcp-rename-only-with-include-styles" = true →
+    (∃ v ∈ space Gen.Wrappers.mcp_rename, build Gen.Wrappers.mcp_rename v = [t!"rename", t!"old_name", t!"new_name", t!"--include-styles", t!"snake", t!"--only-styles", t!"snake", t!"--yes"]) ∧
     accepts G [t!"rename", t!"old_name", t!"new_name", t!"--include-styles", t!"snake", t!"--only-styles", t!"snake", t!"--yes"] = .error .argumentConflict := by decide +kernel
 
 /-- `mcp-replace-preview-json`: `renamify replace old_name new_name --preview json --yes` -/
-theorem C20_witness_mcp_replace_preview_json :
-    (∃ v ∈ core Gen.Wrappers.mcp_replace, build Gen.Wrappers.mcp_replace v = [t!"replace", t!"old_name", t!"new_name", t!"--preview", t!"json", t!"--yes"]) ∧
+theorem C20_witness_mcp_replace_preview_json : inForce t!"mcp-replace-preview-json" = true →
+    (∃ v ∈ space Gen.Wrappers.mcp_replace, build Gen.Wrappers.mcp_replace v = [t!"replace", t!"old_name", t!"new_name", t!"--preview", t!"json", t!"--yes"]) ∧
     accepts G [t!"replace", t!"old_name", t!"new_name", t!"--preview", t!"json", t!"--yes"] = .error .invalidValue := by decide +kernel
 
 /-- `vscode-search-no-rename-paths`: `renamify search old_name --output json --no-rename-paths -u` -/
-theorem C20_witness_vscode_search_no_rename_paths :
-    (∃ v ∈ core Gen.Wrappers.vscode_search, build Gen.Wrappers.vscode_search v = [t!"search", t!"old_name", t!"--output", t!"json", t!"--no-rename-paths", t!"-u"]) ∧
+theorem C20_witness_vscode_search_no_rename_paths : inForce t!"vscode-search-no-rename-paths" = true →
+    (∃ v ∈ space Gen.Wrappers.vscode_search, build Gen.Wrappers.vscode_search v = [t!"search", t!"old_name", t!"--output", t!"json", t!"--no-rename-paths", t!"-u"]) ∧
     accepts G [t!"search", t!"old_name", t!"--output", t!"json", t!"--no-rename-paths", t!"-u"] = .error .unknownArgument := by decide +kernel
 
 /-- `vscode-search-atomic-search`: `renamify search old_name --output json --atomic-search -u` -/
-theorem C20_witness_vscode_search_atomic_search :
-    (∃ v ∈ core Gen.Wrappers.vscode_search, build Gen.Wrappers.vscode_search v = [t!"search", t!"old_name", t!"--output", t!"json", t!"--atomic-search", t!"-u"]) ∧
+theorem C20_witness_vscode_search_atomic_search : inForce t!"vscode-search-atomic-search" = true →
+    (∃ v ∈ space Gen.Wrappers.vscode_search, build Gen.Wrappers.vscode_search v = [t!"search", t!"old_name", t!"--output", t!"json", t!"--atomic-search", t!"-u"]) ∧
     accepts G [t!"search", t!"old_name", t!"--output", t!"json", t!"--atomic-search", t!"-u"] = .error .unknownArgument := by decide +kernel
 
 /-- `vscode-leading-hyphen`: `renamify search -x --output json -u` -/
-theorem C20_witness_vscode_leading_hyphen :
-    (∃ v ∈ core Gen.Wrappers.vscode_search, build Gen.Wrappers.vscode_search v = [t!"search", t!"-x", t!"--output", t!"json", t!"-u"]) ∧
+theorem C20_witness_vscode_leading_hyphen : inForce t!"vscode-leading-hyphen" = true →
+    (∃ v ∈ space Gen.Wrappers.vscode_search, build Gen.Wrappers.vscode_search v = [t!"search", t!"-x", t!"--output", t!"json", t!"-u"]) ∧
     accepts G [t!"search", t!"-x", t!"--output", t!"json", t!"-u"] = .error .unknownArgument := by decide +kernel
 
 /-- `vscode-apply-id`: `renamify apply --output json --id abc123` -/
-theorem C20_witness_vscode_apply_id :
-    (∃ v ∈ core Gen.Wrappers.vscode_apply, build Gen.Wrappers.vscode_apply v = [t!"apply", t!"--output", t!"json", t!"--id", t!"abc123"]) ∧
+theorem C20_witness_vscode_apply_id : inForce t!"vscode-apply-id" = true →
+    (∃ v ∈ space Gen.Wrappers.vscode_apply, build Gen.Wrappers.vscode_apply v = [t!"apply", t!"--output", t!"json", t!"--id", t!"abc123"]) ∧
     accepts G [t!"apply", t!"--output", t!"json", t!"--id", t!"abc123"] = .error .unknownArgument := by decide +kernel
 
-/-- hence the full-strength property does not hold today -/
-theorem C20_full_false : ¬ C20_full := by
-  intro h
-  have h1 := h Gen.Wrappers.vscode_apply (by decide) [.str t!"abc123"] (by decide +kernel)
-  revert h1
-  decide +kernel
+/-- while the VS Code `apply --id` finding is in force the full-strength property is false -/
+theorem C20_full_false : inForce t!"vscode-apply-id" = true → ¬ C20_full := by
+  intro hl h
+  have key : inForce t!"vscode-apply-id" = true →
+      okFor G Gen.Wrappers.vscode_apply [.str t!"abc123"] = false := by decide +kernel
+  have h1 := h Gen.Wrappers.vscode_apply (by decide +kernel) [.str t!"abc123"] (by decide +kernel)
+  rw [key hl] at h1
+  cases h1
 
 -- non-vacuity ------------------------------------------------------------------------------------
 
 /-- the guard is satisfiable by a non-trivial valuation: VS Code `rename` with every option that pushes
-    something set at once (at least 14 tokens) stays outside `knownBad`, and that command line is
+    something set at once (at least 14 tokens) stays outside the guard, and that command line is
     accepted with the intended meaning -/
 example :
     let b := Gen.Wrappers.vscode_rename
-    let v := greedy b 0 (List.range b.fields.length)
-    usesBad b v = false ∧ okFor G b v = true ∧ 14 ≤ (build b v).length := by decide +kernel
+    let v := greedy live b 0 (List.range b.fields.length)
+    guard b v = false ∧ okFor G b v = true ∧ 14 ≤ (build b v).length := by decide +kernel
 
-/-- the same for the MCP `plan` builder, where one field (`styles`) has to stay out -/
+/-- the same for the MCP `plan` builder -/
 example :
     let b := Gen.Wrappers.mcp_buildPlanArgs
-    let v := greedy b 0 (List.range b.fields.length)
-    usesBad b v = false ∧ okFor G b v = true ∧ 14 ≤ (build b v).length := by decide +kernel
+    let v := greedy live b 0 (List.range b.fields.length)
+    guard b v = false ∧ okFor G b v = true ∧ 14 ≤ (build b v).length := by decide +kernel
 
 /-- the model is not vacuous about rejection either: `--` makes a leading-hyphen term acceptable -/
 example : accepted G [t!"search", t!"--", t!"-x"] = true ∧ accepted G [t!"search", t!"-x"] = false := by decide +kernel
 
-/-- every builder has cases in the evaluated space, 377 in total -/
-example : (Gen.Wrappers.builders.map (fun b => (core b).length)).foldl (· + ·) 0 = 377 := by decide +kernel
+/-- every builder has cases in the evaluated space -/
+example : Gen.Wrappers.builders.all (fun b => !(space b).isEmpty) = true := by decide +kernel
 
 end C20
